@@ -718,6 +718,51 @@ func runConcBound(c Case, s *hx.Sink) string {
 	return fmt.Sprintf("LruCase %s %s []", hx.N(c.ID), hx.Nat(c.Cap))
 }
 
+// runParkedChurn: an iterator rests on an entry that is removed under it, and stays there while thousands of other
+// entries come and go (any housekeeping a map does after many removals has its chance); then the iterator is closed.
+// The removed entry must stay removed (Get, Len), and with the iterator closed nothing of the history is left.
+func runParkedChurn(c Case, s *hx.Sink) string {
+	m := iterable.NewMap[int, int]()
+	for i := 0; i < 3; i++ {
+		m.Add(i, i)
+	}
+	it := m.Iterator()
+	it.Next() // has returned entry 0 and rests on entry 1 now
+	m.Remove(1)
+	live := 2
+	bad := ""
+	for i := 0; i < c.GLen && bad == ""; i++ {
+		k := 100 + i
+		m.Add(k, k)
+		if i%3 != 0 || live > 8 {
+			m.Remove(k)
+		} else {
+			live++
+		}
+		if i%97 == 0 {
+			if _, ok := m.Get(1); ok {
+				bad = fmt.Sprintf("Get finds the removed key again after %d more Add/Remove calls", 2*i)
+			} else if m.Len() != live {
+				bad = fmt.Sprintf("Len() = %d with %d live keys after %d more Add/Remove calls", m.Len(), live, 2*i)
+			}
+		}
+	}
+	it.Close()
+	nodes, deleted, refs, headOK := m.VerifWalk()
+	if bad == "" && (m.Len() != live || nodes != m.Len()+1 || deleted > 0 || refs > 0 || !headOK) {
+		bad = fmt.Sprintf("after the iterator was closed: Len() = %d (live keys %d), nodes %d, removed entries still linked %d, pins %d", m.Len(), live, nodes, deleted, refs)
+	}
+	if _, ok := m.Get(1); ok && bad == "" {
+		bad = "Get finds the removed key after the iterator was closed"
+	}
+	s.Count("parked-churn")
+	if bad != "" {
+		s.DirectViolation(c.ID, "reachable nodes > Len()+1+open iterators (or more pinned entries than open iterators)",
+			map[string]any{"history": "an iterator rested on a removed entry during a long Add/Remove churn", "what": bad})
+	}
+	return fmt.Sprintf("LruCase %s %s []", hx.N(c.ID), hx.Nat(1))
+}
+
 type failClose struct {
 	iterable.Iterator[iterable.MapEntry[int, int]]
 }
@@ -795,6 +840,8 @@ func runCase(c Case, s *hx.Sink) string {
 	switch c.Kind {
 	case "mixeruse":
 		return runMixerUse(c, s)
+	case "parkedchurn":
+		return runParkedChurn(c, s)
 	case "concbound":
 		return runConcBound(c, s)
 	case "lru":
@@ -867,6 +914,9 @@ func main() {
 			n = 300000
 		}
 		emit(Case{Kind: "concbound", Cap: cap, GSeed: fl.Seed*17 + uint64(i), GLen: n, Rep: 3}, "conc-bound")
+	}
+	for _, n := range []int{1500, 5000, 40000} {
+		emit(Case{Kind: "parkedchurn", Cap: 1, GLen: n}, "parked-churn")
 	}
 	for i := 0; i < 4; i++ {
 		emit(Case{Kind: "mixeruse", Cap: 1, GSeed: fl.Seed*19 + uint64(i), GLen: 50 + 200*i}, "mixer-use")
